@@ -22,11 +22,14 @@ def match_finding(findings, prop, unit, obligation=None, cls=None):
         m = f.get("match", {})
         if "unit" in m and not fnmatch.fnmatch(unit, m["unit"]):
             continue
+        def _any(val, pats):
+            pats = pats if isinstance(pats, list) else [pats]
+            return any(fnmatch.fnmatchcase(val, p) for p in pats)
         if obligation is not None:
-            if "obligation" not in m or not fnmatch.fnmatch(obligation, m["obligation"]):
+            if "obligation" not in m or not _any(obligation, m["obligation"]):
                 continue
         if cls is not None:
-            if "cls" not in m or not fnmatch.fnmatch(cls, m["cls"]):
+            if "cls" not in m or not _any(cls, m["cls"]):
                 continue
         return f
     return None
@@ -163,8 +166,12 @@ def main(argv=None):
     if a.pin:
         do_pin(prop, results, exp_path)
 
+    byid = {}
     for kf, rp, _ in known:
-        print("KNOWN-FINDING: property=%s %s [%s] replay=%s" % (prop, kf.get("what", ""), kf.get("id", ""), rp))
+        byid.setdefault(kf.get("id", ""), [kf, rp, 0])[2] += 1
+    for fid, (kf, rp, n) in sorted(byid.items()):
+        print("KNOWN-FINDING: property=%s %s [%s; %d failing obligation(s)/input(s) in the recorded class] replay=%s" % (
+            prop, kf.get("what", ""), fid, n, rp))
     for pl in proof_lost:
         print("PROOF-LOST unit=%s reason=%s" % pl)
     if a.v or violations or undecided:
